@@ -4,7 +4,8 @@ use serde_json::{json, Value};
 
 /// Abstract resources 0..NRES (A, B, C, D).  They are mapped onto concrete
 /// `(type, dynamic id)` pairs by a `ResMap` (identity by default):
-/// concrete universe U = [(Cell0,0), (Cell0,1), (Cell1,0), (Cell1,7), (Cell0,7), (Cell1,1)].
+/// concrete universe U = [(Cell0,0), (Cell0,1), (Cell1,0), (Cell1,7), (Cell0,2^32+1), (Cell1,2^64-256)]
+/// (the last two collide with (Cell0,1) / (Cell1,0) under any truncation of the dynamic id).
 pub const NRES: usize = 4;
 pub const NCONCRETE: usize = 6;
 
